@@ -19,6 +19,12 @@ class ScriptedSecrets:
         self.calls = []
         self.i = 0
 
+    def reset(self, script):
+        """Start a new operation on the same installed stub (same effect as installing a fresh ScriptedSecrets(script))."""
+        self.script = list(script)
+        self.calls = []
+        self.i = 0
+
     def _next(self):
         if self.i >= self.MAX_CALLS:
             raise NonTermination(f"random source consulted {self.i} times in one operation")
